@@ -175,6 +175,9 @@ def profile_C03(g, tier):
     if scen["params"].get("max_tries") and g.chance("lost3", 0.3):
         # a result that never arrives keeps its worker polling for minutes while the others go on with the budget
         fam["p_lost"] = g.pick("p_lost3", [0.15, 0.3])
+        # the wait for a lost result (10 x 30 s) must stay within test_timeout x max_tries: beyond it the traversal
+        # deliberately grants re-entrancy to the waiting workers (recovery from a hung worker, see C04)
+        scen["params"]["test_timeout"] = 400
     if g.chance("scoped-retries", 0.25):
         # separate reuse scopes with different pool contents and retries: every scope decides for itself
         scen["nets"] = g.pick("snets", ["cluster1.net6 cluster2.net6", "cluster1.net6 cluster1.net8 cluster2.net7",
